@@ -10,7 +10,10 @@ RULE = ("robust: every case is one ISOLATED WORKER PROCESS of the debug build (2
         "/Size, /Prev, /W, /Index, /N, /First, object-stream offsets, /Length, /Predictor /Colors /Columns /BitsPerComponent, /Rotate, /St, /Count, "
         "MediaBox, startxref, entry offsets, octal/hex escapes) x skeletons (classic / xref-stream / ObjStm) x the five presets; the computed "
         "witnesses of every refuted kernel; byte and structure mutations of valid files; nesting and repetition bombs; /Prev chains and cycles; "
-        "plain random bytes. Judged in Coq by C01.Judge.case_code (kernel catalogue evaluated on the spliced integers). "
+        "plain random bytes; SHAPES: xref streams whose type-2 entries form container chains/cycles of length 1..4 (self, full cycle, rho) reached "
+        "through /Root /Pages /Kids /Contents /Resources /Font; classic xref sections whose count exceeds the lines present x every tail "
+        "(one-line trailer, corrupted/missing keyword, comments, blank lines, EOF, startxref before/after, CRLF, no final EOL); the manual "
+        "stream-reconstruction path (unparsable dictionary, indirect /Length, object missing from the table) x boundary /Length. Judged in Coq by C01.Judge.case_code (kernel catalogue evaluated on the spliced integers). "
         "non-trivial = a case aimed at a kernel, or a generic case that opened successfully; distinct by case text")
 
 KERNEL_RUN_MIN = 1000
@@ -53,6 +56,10 @@ SHAPES = [
     ("src/parser/filters.rs", r"fold\(0u64, \|acc, &ch\| acc \* 85 \+ u64::from\(ch - b'!'\)\)", "ASCII85 group in u64"),
     ("src/text/cmap.rs", r"acc\.saturating_mul\(256\)\.saturating_add\(b as usize\)", "CMap offset fold saturates"),
     ("src/graphics/png_decoder.rs", r"\(self\.height as usize\)\s*\.checked_mul\(bytes_per_row\)", "PNG size checked"),
+    ("src/parser/reader.rs", r"fn get_compressed_object[\s\S]{0,700}let stream_obj = self\.get_object\(stream_obj_num, 0\)\?;", "object-stream container loaded through the guarded get_object"),
+    ("src/parser/reader.rs", r"if being_loaded\.contains\(&obj_num\)", "being-loaded set consulted by get_object"),
+    ("src/parser/xref.rs", r"// Skip comments\s*if trimmed\.starts_with\('%'\) \{\s*continue;\s*\}\s*// Check if we've hit EOF[^\n]*\s*if bytes_read == 0 \|\| trimmed == \"trailer\"", "entry loop: only comments are skipped above the EOF test"),
+    ("src/parser/xref.rs", r"Vec::with_capacity\(max\.min\(WINDOW_CHUNK\)\)", "read_window_at reserves at most a chunk"),
 ]
 
 
@@ -76,6 +83,14 @@ def ties(run):
         run.corr_broken.append("constant tie: MAX_NESTING_DEPTH of lexer.rs (%s) differs from MAX_NEST of the model (%s)" % (m.group(1), mm.group(1)))
     if not m:
         drift.append("lexer.rs: MAX_NESTING_DEPTH constant")
+    rd = open(os.path.join(CRATE, "src/parser/reader.rs")).read()
+    depths = set(re.findall(r"max_reconstruction_depth: (\d+),", rd))
+    lv = open(os.path.join(COQ, "theories/C01/Loops.v")).read()
+    ml = re.search(r"Definition MAX_LOAD_DEPTH : nat := (\d+)\.", lv)
+    if depths and ml and depths != {ml.group(1)}:
+        run.corr_broken.append("constant tie: max_reconstruction_depth of reader.rs (%s) differs from MAX_LOAD_DEPTH of the model (%s)" % (sorted(depths), ml.group(1)))
+    if not depths:
+        drift.append("reader.rs: max_reconstruction_depth constant")
     run.extra_cov["anchors_checked"] = len(SHAPES) + 1
     if drift:
         run.extra_cov["anchor_drift"] = drift
@@ -109,5 +124,5 @@ def run(r):
                      "stack consumption per frame, the allocator and the clock are OBSERVED by the worker limits, not modelled",
                      "flate2/miniz_oxide decompression is bounded by the library's MAX_DECOMPRESSED_SIZE guard (observed, not modelled)",
                      "code outside the kernel catalogue (JBIG2/DCT/CCITT decoders, OCR, signatures, encryption) is covered only by the worker observations"]
-    return standard(r, "c01", ["theories/C01/KProofs.vo", "theories/C01/Depth.vo", "theories/C01/Judge.vo"],
+    return standard(r, "c01", ["theories/C01/KProofs.vo", "theories/C01/Depth.vo", "theories/C01/Loops.vo", "theories/C01/Judge.vo"],
                     ["theories/C01/Judge.vo"], ["robust"], classify=classify, pre=ties, harness_timeout=2400)
